@@ -39,10 +39,10 @@ def firstH : Holders → Option Nat
   | .null rest => firstH rest
   | .node t rest => orElse (first t) (firstH rest)
   | .list es rest => orElse (firstE es) (firstH rest)
-/-- `CoreSyntaxNodeList::firstToken()`: only the first element is asked -/
+/-- `CoreSyntaxNodeList::firstToken()`: the first element that has a valid token -/
 def firstE : Elems → Option Nat
   | .nil => none
-  | .cons t _ _ => first t
+  | .cons t _ rest => orElse (first t) (firstE rest)
 end
 
 mutual
@@ -55,11 +55,10 @@ def lastH : Holders → Option Nat
   | .null rest => lastH rest
   | .node t rest => orElse (lastH rest) (last t)
   | .list es rest => orElse (lastH rest) (lastE es)
-/-- `CoreSyntaxNodeList::lastToken()`: only the last element is asked -/
+/-- `CoreSyntaxNodeList::lastToken()`: the last element that has a valid token -/
 def lastE : Elems → Option Nat
   | .nil => none
-  | .cons t _ .nil => last t
-  | .cons _ _ rest => lastE rest
+  | .cons t _ rest => orElse (lastE rest) (last t)
 end
 
 mutual
@@ -163,30 +162,7 @@ def acceptE : Elems → Action × List Nat
     | _ => let q := acceptE rest; (q.1, r.2 ++ q.2)
 end
 
-/-! ## Hypotheses (decidable; monitored on every real tree by the correspondence run) -/
-
-mutual
-/-- a non-empty list whose tokens are not all in hollow elements: its first and last element own a token
-whenever any element does (only those two are asked by `firstToken`/`lastToken` of a list) -/
-def listsOK : Tree → Bool
-  | .mk _ _ hs => listsOKH hs
-def listsOKH : Holders → Bool
-  | .nil => true
-  | .tok _ rest => listsOKH rest
-  | .null rest => listsOKH rest
-  | .node t rest => listsOK t && listsOKH rest
-  | .list es rest => headOK es && lastOK es && listsOKE es && listsOKH rest
-def listsOKE : Elems → Bool
-  | .nil => true
-  | .cons t _ rest => listsOK t && listsOKE rest
-def headOK : Elems → Bool
-  | .nil => true
-  | .cons t _ rest => !(tokens t).isEmpty || (tokensE rest).isEmpty
-def lastOK : Elems → Bool
-  | .nil => true
-  | .cons _ _ .nil => true
-  | .cons t _ rest => lastOK rest && (!(tokensE rest).isEmpty || (tokens t).isEmpty)
-end
+/-! ## Hypothesis (decidable; monitored on every real tree by the correspondence run) -/
 
 /-- the property's sibling clause: tokens appear in strictly increasing source order along the holders -/
 def Ordered (t : Tree) : Prop := (tokens t).Pairwise (· < ·)
